@@ -54,6 +54,36 @@ fn check_error(acc: &mut Acc, sub: &str, rank: u64, input: &[u8], po: &PO, src: 
     acc.outcome(&(cat == Category::Eof, src.len()));
 }
 
+/// Conversion clause for I/O: a reader that fails with kind K and a payload at offset k. If the
+/// parse fails with an Io-category error, io::Error::from(err) must be that error again (kind and
+/// payload); whether the failure must surface at all is C06's business and is not judged here.
+fn check_io_conversion(acc: &mut Acc, rank: u64, text: &[u8], po: &PO) {
+    use crate::engine::choice::{fault_kind, FaultReader, Payload};
+    let o = po.to_lexpr();
+    for k in 0..=text.len() {
+        for sticky in [true, false] {
+            let payload = (rank << 16) ^ ((k as u64) << 1) ^ sticky as u64;
+            acc.evals += 1;
+            let r = guard(|| lexpr::from_reader_custom(FaultReader { data: text, pos: 0, chunk: 2, fail_at: k, sticky, fired: 0, payload }, o));
+            if let Ok(Err(e)) = r {
+                if e.classify() != Category::Io {
+                    continue;
+                }
+                acc.nontrivial += 1;
+                let want_kind = fault_kind(payload);
+                let has_loc = e.location().is_some();
+                let ioe: io::Error = e.into();
+                let got_payload = ioe.get_ref().and_then(|x| x.downcast_ref::<Payload>()).map(|p| p.0);
+                acc.outcome(&(ioe.kind(), has_loc));
+                if ioe.kind() != want_kind || got_payload != Some(payload) {
+                    let (h, pi) = (hex(text), po.index());
+                    acc.violation("io-conversion", "io-error-not-the-original", &format!("io-error-not-the-original:{:?}", want_kind), rank, format!("text={:?} fail_at={} sticky={} injected kind={:?}", show_bytes(text), k, sticky, want_kind), format!("io::Error::from(err) has kind {:?} and payload {:?}; the reader failed with kind {:?} and payload {}", ioe.kind(), got_payload, want_kind, payload), || json!({"io_text_hex": h, "po": pi, "rank": rank}));
+                }
+            }
+        }
+    }
+}
+
 fn check_locations(acc: &mut Acc, sub: &str, rank: u64, input: &[u8], po: &PO) {
     let o = po.to_lexpr();
     acc.evals += 1;
@@ -181,6 +211,10 @@ fn check_truncation_alphabet(acc: &mut Acc, rank: u64, p: &[u8], po: &PO, ext_le
 pub fn replay(sub: &str, case: &J, acc: &mut Acc) {
     let input = unhex(case["input_hex"].as_str().unwrap_or(""));
     let po = PO::from_index(case["po"].as_u64().unwrap_or(0));
+    if let Some(h) = case["io_text_hex"].as_str() {
+        check_io_conversion(acc, case["rank"].as_u64().unwrap_or(0), &unhex(h), &po);
+        return;
+    }
     if sub == "truncation" || sub == "truncation-alphabet" || sub == "truncation-utf8" {
         check_truncations(acc, 0, &input, &po);
         // only the recorded prefix matters, but reporting every failing prefix of the text is fine
@@ -214,6 +248,16 @@ pub fn run(ctx: &Ctx) -> Report {
     let thorough = ctx.tier.thorough();
     let two = [PO::default_(), PO::elisp()];
 
+    if ctx.want("io-conversion") {
+        let texts: Vec<Vec<u8>> = corpus_g(false).into_iter().map(|x| x.0).filter(|t| t.len() <= 24).collect();
+        let sub = Sub::new("io-conversion", "a reader failing at every byte offset of every corpus text of at most 24 bytes (sticky and transient, the error kinds rotating over Other, UnexpectedEof, InvalidData, BrokenPipe, TimedOut, WouldBlock), default and Emacs Lisp options: an Io-category parse error converts to an io::Error of the reader's kind carrying the reader's payload; non-trivial = an Io error surfaced", &format!("{} texts x 2 option sets", texts.len()));
+        let accs = par_ranks(texts.len() as u64 * 2, |rank, acc| {
+            let t = &texts[(rank / 2) as usize];
+            acc.sample(rank, || format!("{:?}", show_bytes(t)));
+            check_io_conversion(acc, rank, t, &two[(rank % 2) as usize]);
+        });
+        rep.absorb(sub, accs);
+    }
     if ctx.want("locations-B3") {
         let sub = Sub::new("locations-B3", "every byte string of length <= 3 x {default, elisp}: for each failing parse (value and datum entry points; slice, 1-byte reader, str when UTF-8) the location is in bounds and io::Error::from has the documented kind and wraps the error; non-trivial = the input fails to parse", &format!("{} cells", N_B3 * 2));
         let accs = par_ranks(N_B3 * 2, |rank, acc| {
